@@ -148,7 +148,21 @@ Definition ef_step (pre : option bool) (st : list item * list item) (x : item) :
 Definition empty_filter (pre : option bool) (xs : list item) : list item :=
   let '(filtered, found) := fold_left (ef_step pre) xs ([], []) in
   if negb (nonempty_l filtered) && nonempty_l found && is_none pre then rev found else rev filtered.
-(* for spec in self._specs: iterable = spec.filter(iterable, prereleases=bool(prereleases)) *)
+(* SpecifierSet.filter, non-empty set, as the code is since 70278f0 - ONE pass over the items:
+     allow = bool(prereleases); (item for item in iterable if all(spec.contains(item, prereleases=allow) for spec in specs))
+   None = an exception other than InvalidVersion escapes from a member's contains *)
+Fixpoint one_pass (b : bool) (l : list member) (xs : list item) : option (list item) :=
+  match xs with
+  | [] => Some []
+  | x :: t => match all_members (Some b) (snd x) l with
+              | Ans true => option_map (cons x) (one_pass b l t)
+              | Ans false => one_pass b l t
+              | _ => None
+              end
+  end.
+(* the code BEFORE 70278f0: for spec in self._specs: iterable = spec.filter(iterable, prereleases=bool(prereleases)) - a chain of member
+   filters.  No longer what runs; kept because it is extensionally the same function (SetsFilter.chain_is_one_pass, no premise) and the
+   proofs about the set filter were developed on it. *)
 Fixpoint chain_filter (b : bool) (l : list member) (xs : list item) : option (list item) :=
   match l with
   | [] => Some xs
@@ -158,7 +172,7 @@ Definition set_filter_v (S : sset) (arg : option bool) (xs : list item) : option
   let pre := match arg with Some _ => arg | None => set_pre S end in
   match ms S with
   | [] => Some (empty_filter pre xs)
-  | l => chain_filter (truthy pre) l xs
+  | l => one_pass (truthy pre) l xs
   end.
 
 (* coercion of the input list: _coerce_version on every item while the generator is drained; None = InvalidVersion *)
